@@ -367,6 +367,16 @@ func init() {
 		}
 		return nil
 	}
+	harnessAPI["verifDistinctFromRandom"] = func(ex *Exec, fn *ssa.Function, a []Value) Value {
+		// the given 32-bit value differs from every value the modelled random generator has produced so far
+		x := a[0].(*term.T)
+		for _, r := range ex.nondet {
+			if r.Kind == "env" && r.T != nil && r.T.W == x.W {
+				ex.Assume(term.Ne(x, r.T))
+			}
+		}
+		return nil
+	}
 	harnessAPI["verifAdvance"] = func(ex *Exec, fn *ssa.Function, a []Value) Value {
 		d := toW64(a[0].(*term.T), true)
 		ex.env.clock = term.Add(ex.env.clock, d)
@@ -411,4 +421,27 @@ func toBSlice(v Value) BSlice {
 		return BSlice{arr: x, off: zero64, len: x.size, cap: x.size}
 	}
 	panic(fmt.Sprintf("toBSlice: %T", v))
+}
+
+func init() {
+	// logging has empty bodies (formatting of symbolic names would fork on every character class)
+	pkgRules = append(pkgRules, pkgRule{prefix: "github.com/named-data/ndnd/fw/core", h: func(fn *ssa.Function) Intrinsic {
+		switch fn.Name() {
+		case "LogTrace", "LogDebug", "LogInfo", "LogWarn", "LogError":
+			return nop
+		case "LogFatal":
+			return stubFatal
+		}
+		return nil
+	}})
+	pkgRules = append(pkgRules, pkgRule{prefix: "github.com/named-data/ndnd/std/log", h: func(fn *ssa.Function) Intrinsic {
+		n := fn.Name()
+		switch n {
+		case "Fatal", "Fatalf":
+			return stubFatal
+		case "Trace", "Tracef", "Debug", "Debugf", "Info", "Infof", "Warn", "Warnf", "Error", "Errorf", "WithField", "WithFields", "WithError", "WithDuration", "Stop":
+			return stubZero
+		}
+		return nil
+	}})
 }
